@@ -1361,6 +1361,13 @@ func runCaseInner(c *caseT) string {
 	acks := 0
 	for buf := r.cli.snapshot(); len(buf) > 0; {
 		a, more := readAck(buf)
+		if a == "other" {
+			// a well-formed control packet (the TunnelOpenRequest command that notifyTargetClientToOpenTunnel pushes to
+			// a connection whose transport names the target client — possibly the requester itself, at a time of the
+			// notifier's choosing): neither an acknowledgement nor tunnel traffic
+			buf = more
+			continue
+		}
 		if a != "ok" && a != "fail" {
 			if !data && a != "none" {
 				data = true
